@@ -17,6 +17,7 @@ import (
 type refDesc struct {
 	Reg   int
 	Out   int
+	PIdx  int // index of the identity in the registration's AllProvides()
 	Ident kit.Ident
 	Life  int
 	Void  bool
@@ -27,17 +28,27 @@ type refRegistry struct {
 	regs    map[int]*kit.Reg
 	order   []int
 	tainted string // non-empty: semantics no longer pinned down by the statement; only no-panic is checked
+	partial bool   // some registration has lost one of several identities (and is still there)
 }
 
 func newRefRegistry() *refRegistry { return &refRegistry{regs: map[int]*kit.Reg{}} }
 
 func (r *refRegistry) has(id kit.Ident) bool {
 	for _, d := range r.descs {
-		if !d.Void && d.Ident == id {
+		if d.matches(id) {
 			return true
 		}
 	}
 	return false
+}
+
+// matches: an initializer function is an identity only when it was given a
+// name (it is then a keyed service of type struct{}).
+func (d refDesc) matches(id kit.Ident) bool {
+	if d.Void && (d.Ident.T != kit.TVoid || d.Ident.Key == "") {
+		return false
+	}
+	return d.Ident == id
 }
 
 // add applies a registration; returns (accepted, duplicate).
@@ -47,17 +58,24 @@ func (r *refRegistry) add(reg kit.Reg) (bool, bool) {
 	}
 	var nd []refDesc
 	if reg.Form == kit.FormVoid {
-		nd = []refDesc{{Reg: reg.ID, Life: reg.Life, Void: true}}
+		id := kit.Ident{T: kit.TVoid, Key: reg.Name}
+		if reg.Name != "" && r.has(id) {
+			return false, true
+		}
+		nd = []refDesc{{Reg: reg.ID, Life: reg.Life, Void: true, Ident: id}}
 	}
 	seen := map[kit.Ident]bool{}
-	for _, p := range reg.Provides() {
+	for i, p := range reg.AllProvides() {
+		if reg.Form == kit.FormVoid {
+			break // the one descriptor of an initializer was added above
+		}
 		if p.Ident.Group == "" {
 			if r.has(p.Ident) || seen[p.Ident] {
 				return false, true
 			}
 			seen[p.Ident] = true
 		}
-		nd = append(nd, refDesc{Reg: reg.ID, Out: p.Out, Ident: p.Ident, Life: reg.Life})
+		nd = append(nd, refDesc{Reg: reg.ID, Out: p.Out, PIdx: i, Ident: p.Ident, Life: reg.Life})
 	}
 	r.descs = append(r.descs, nd...)
 	cp := reg
@@ -66,15 +84,37 @@ func (r *refRegistry) add(reg kit.Reg) (bool, bool) {
 	return true, false
 }
 
+// remove drops one identity. A registration that provided several identities
+// keeps the others: its constructor still runs for them, the removed identity
+// is simply no longer a service (and may be registered again by someone else).
+// A registration that has lost all its identities is gone: it never runs.
 func (r *refRegistry) remove(id kit.Ident) {
 	for i, d := range r.descs {
-		if !d.Void && d.Ident == id {
-			reg := r.regs[d.Reg]
-			if reg == nil || len(reg.Provides()) > 1 {
-				r.tainted = "removed one output of a multi-output registration"
-			}
+		if d.matches(id) {
 			r.descs = append(r.descs[:i:i], r.descs[i+1:]...)
-			delete(r.regs, d.Reg)
+			reg := r.regs[d.Reg]
+			if reg == nil {
+				return
+			}
+			dropped := map[int]bool{d.PIdx: true}
+			for k, v := range reg.Dropped {
+				dropped[k] = v
+			}
+			reg.Dropped = dropped
+			real := 0
+			for _, p := range reg.Provides() {
+				if !(p.Out < len(reg.Outs) && reg.Outs[p.Out].Nil) {
+					real++
+				}
+			}
+			if real == 0 {
+				if len(reg.Provides()) > 0 {
+					r.tainted = "only always-nil outputs of a registration are left"
+				}
+				delete(r.regs, d.Reg)
+			} else if len(dropped) > 0 && len(reg.AllProvides()) > 1 {
+				r.partial = true
+			}
 			return
 		}
 	}
@@ -101,6 +141,9 @@ func (r *refRegistry) checkQueries(c godi.Collection) *Failure {
 		if got, want := c.ContainsKeyed(rt, "a"), r.has(kit.Ident{T: ty, Key: "a"}); got != want {
 			return fail("C17", "queries", "contains-keyed", "ContainsKeyed(%s,a)=%v, reference %v", kit.TypeName(ty), got, want)
 		}
+	}
+	if got, want := c.ContainsKeyed(kit.RType(kit.TVoid), "a"), r.has(kit.Ident{T: kit.TVoid, Key: "a"}); got != want {
+		return fail("C17", "queries", "contains-keyed", "ContainsKeyed(struct{},a)=%v, reference %v", got, want)
 	}
 	if got := c.Count(); got != len(r.descs) {
 		return fail("C17", "queries", "count", "Count()=%d, reference has %d registrations", got, len(r.descs))
@@ -159,6 +202,7 @@ func allPoolIdents() []kit.Ident {
 	for _, ty := range c17Types {
 		ids = append(ids, kit.Ident{T: ty}, kit.Ident{T: ty, Key: "a"}, kit.Ident{T: ty, Group: "g"})
 	}
+	ids = append(ids, kit.Ident{T: kit.TVoid, Key: "a"}) // a named initializer function
 	return ids
 }
 
@@ -252,6 +296,12 @@ func checkProvider(s *provSnap, when string) *Failure {
 			}
 			continue
 		}
+		if id.T == kit.TVoid {
+			if o.Err != nil {
+				return fail("C17", "snapshot", "lost/"+when, "%s: %s no longer resolves: %v", when, id, firstLine(o.Err))
+			}
+			continue // no instance to compare
+		}
 		if o.Err != nil {
 			return fail("C17", "snapshot", "lost/"+when, "%s: %s no longer resolves: %v", when, id, firstLine(o.Err))
 		}
@@ -336,8 +386,8 @@ func TestC17Registry(t *testing.T) {
 				doAdd(true)
 			case k == 7 || k == 8:
 				// remove: un-keyed only when the type has no keyed/grouped registrations (the statement leaves that case open)
-				ty := rapid.SampledFrom(c17Types).Draw(rt, "rmtype")
-				keyed := rapid.Bool().Draw(rt, "rmkeyed")
+				ty := rapid.SampledFrom(append(append([]int(nil), c17Types...), kit.TVoid)).Draw(rt, "rmtype")
+				keyed := rapid.Bool().Draw(rt, "rmkeyed") || ty == kit.TVoid
 				if keyed {
 					coll.RemoveKeyed(kit.RType(ty), "a")
 					ref.remove(kit.Ident{T: ty, Key: "a"})
@@ -440,6 +490,9 @@ func TestC17Registry(t *testing.T) {
 		labels := []string{}
 		if ref.tainted != "" {
 			labels = append(labels, "tainted(no-panic only)")
+		}
+		if ref.partial {
+			labels = append(labels, "partial-removal")
 		}
 		if len(kept) > 0 {
 			labels = append(labels, "kept-provider")
